@@ -44,6 +44,10 @@ pub fn fuzz_bytes(id: &str, data: &[u8], ctx: &mut Ctx) -> Option<(String, Viola
     if data.len() < 4 {
         return None;
     }
+    if id == "C13" {
+        let doc = c13::raw_doc(data);
+        return ctx.run_one("raw_document", &doc, &|c, l| c13::exec_raw(c, l)).map(|v| ("raw_document".to_string(), v, serde_json::to_value(&doc).unwrap_or(Value::Null)));
+    }
     let mut c = Cur::new(data);
     let dim = 2 + (c.u8() as usize) % 4;
     let robust = c.bool();
